@@ -7,6 +7,7 @@
 -/
 import VM.Properties.C01
 import VM.Generated.SpecFacts
+import VM.Generated.Facts
 namespace VM.C08
 open VM Impl Spec
 
@@ -41,5 +42,22 @@ theorem option_writes_only_in_setters :
        "SwaggerSchema: svo.EnableObjectArrayTypeCheck", "SwaggerSchema: svo.EnableArrayMustHaveItemsCheck",
        "WithRecycleValidators: svo.recycleValidators", "withRecycleResults: svo.recycleResult",
        "WithSkipSchemataResult: svo.skipSchemataResult", "SpecValidator.Validate: s.schemaOptions.skipSchemataResult"] := by decide
+
+/-- T1: *a validator built without recycling never assigns to itself while validating*: every assignment through the
+    receiver inside a `Validate` / `validate…` / `Applies` method sits under the recycling option (the slot releases and
+    nothing else), except in `SpecValidator`, which is a one-document-at-a-time object and not a schema, parameter or
+    header validator (C05 validates distinct documents with distinct SpecValidators) -/
+theorem unrecycled_validators_never_assign_to_themselves :
+    (Generated.selfWrites.filter (fun w => w.2.2 == false)).map (fun w => (w.1, w.2.1)) =
+      [("SpecValidator.Validate", "s.schemaOptions.skipSchemataResult"), ("SpecValidator.Validate", "s.spec"),
+       ("SpecValidator.Validate", "s.analyzer"), ("SpecValidator.Validate", "s.expanded"),
+       ("SpecValidator.validateReferencesValid", "s.expanded")] := by decide
+
+/-- the extractor still sees the guarded slot releases of every slot owner (the table is not vacuously fine) -/
+theorem guarded_slot_releases_seen :
+    ["HeaderValidator.Validate", "ParamValidator.Validate", "SchemaValidator.Validate", "itemsValidator.Validate",
+     "schemaPropsValidator.validateAllOf", "schemaPropsValidator.validateAnyOf", "schemaPropsValidator.validateNot",
+     "schemaPropsValidator.validateOneOf"].all
+      (fun f => Generated.selfWrites.any (fun w => w.1 == f && w.2.2)) = true := by decide
 
 end VM.C08
